@@ -1,4 +1,5 @@
 import AndaVerif.Model.Bm25Flush
+import AndaVerif.Model.Bm25Conc
 import AndaVerif.Drv.Util
 /-
 Driver of the C11 model. Lines (tokens are numbers, `tf` = `tok:freq,tok:freq` or `-`):
@@ -16,6 +17,15 @@ Driver of the C11 model. Lines (tokens are numbers, `tf` = `tok:freq,tok:freq` o
   flushcheck               -> ok | shape-violation | snapshot-mismatch (load(D+W) vs the in-memory model)
   adopt                    -> the in-memory model becomes load_all(D); prints its contents
 payload ::= <tok=id:f+id:f,…|-> <id:len,…|->
+L3 (threads at the yield points of hook H3, Model/Bm25Conc):
+  cinit zero|large         -> fresh concurrent configuration (bucket_overload_size 0 / 512 KiB)
+  cseq <op>                -> one operation run alone to completion (setup); prints its result
+  cthr <op>                -> adds a thread parked at its `.gate` point
+  crun <schedule csv>      -> runs the schedule strictly: res=<r0>;<r1>;… quiescent=<bool> | disabled@<k>
+  cstate                   -> n= total= docs= terms= dirty=<token sets of the dirty buckets> lost=<postings no bucket lists>
+  cflushed                 -> every bucket becomes clean (a completed flush)
+  csync                    -> the sequential model state becomes the concurrent one (for flushcheck / loadprefix)
+op ::= ins <id> <tf> | rem <id> <tf> | purge <ids> | compact
 query  ::= T <toks csv> | A <n> q… | O <n> q… | N q
 scored ::= id:bits,id:bits,…  (bits = the f32 bit pattern as a decimal u32) or `-`
 -/
@@ -56,8 +66,9 @@ structure St where
   ix : Index
   D : Durable
   ws : List Write
+  cc : Bm25Conc.Cfg
 
-def St.init : St := { ix := Index.empty, D := Durable.empty, ws := [] }
+def St.init : St := { ix := Index.empty, D := Durable.empty, ws := [], cc := { sh := Bm25Conc.Shared.init false, threads := [] } }
 
 def parsePosting (s : String) : Option (Nat × Entries) :=
   match s.splitOn "=" with
@@ -125,9 +136,80 @@ def stepIx (s : Index) (line : String) : Index × String :=
       | _, _ => (s, "bad-op")
   | _ => (s, "bad-op")
 
+def kind? : List String → Option Bm25Conc.Kind
+  | ["ins", id, tf] => do let id ← id.toNat?; let tf ← pairs? tf; pure (.insert id tf)
+  | ["rem", id, tf] => do let id ← id.toNat?; let tf ← pairs? tf; pure (.remove id tf)
+  | ["purge", ids] => do let ids ← natList? ids; pure (.purge ids)
+  | ["compact"] => some .compact
+  | _ => none
+
+def showRes : Bm25Conc.Res → String
+  | .pending => "pending"
+  | .ok => "ok"
+  | .errTokenize => "err:tokenize"
+  | .errExists => "err:exists"
+  | .bool b => if b then "true" else "false"
+  | .count n => toString n
+  | .compacted => "compacted"
+
+/-- runs thread `t` alone until it finishes (at most `fuel` actions) -/
+def runAlone (t : Nat) : Nat → Bm25Conc.Cfg → Bm25Conc.Cfg
+  | 0, c => c
+  | fuel + 1, c =>
+    match Bm25Conc.step t c with
+    | some c' => runAlone t fuel c'
+    | none => c
+
+def showTokSet (ts : List Nat) : String :=
+  if ts.isEmpty then "e" else "+".intercalate ((sortNats ts).map toString)
+
+def showConc (s : Bm25Conc.Shared) : String :=
+  let ix := s.toIndex
+  let dirty := (s.buckets.filter (fun p => p.2.dirty)).map (fun p => showTokSet (Bm25Conc.ownedTokens s p.1 p.2))
+  let dirty := dirty.mergeSort (fun a b => decide (a ≤ b))
+  let lost := (s.postings.filter (fun p =>
+      match Bm25.get? s.buckets p.2.bucket with
+      | some bk => !bk.tokens.contains p.1
+      | none => true)).map (·.1)
+  s!"n={ix.len} total={ix.totalTokens} docs={showPairs (sortPairs ix.docTokens)} terms={showVisible ix} dirty={if dirty.isEmpty then "-" else ",".intercalate dirty} lost={showNats (sortNats lost)} gate={s.readers}/{s.writer}"
+
 def step (st : St) (line : String) : St × String :=
   match words line with
   | ["reset"] => (St.init, "ok")
+  | ["cinit", m] => ({ st with cc := { sh := Bm25Conc.Shared.init (m == "zero"), threads := [] } }, "ok")
+  | "cseq" :: op =>
+      match kind? op with
+      | some k =>
+          let c0 : Bm25Conc.Cfg := { sh := st.cc.sh, threads := [Bm25Conc.Thread.new k] }
+          let c1 := runAlone 0 10000 c0
+          match c1.threads with
+          | [th] => ({ st with cc := { sh := c1.sh, threads := [] } }, if th.finished then showRes th.res else "stuck")
+          | _ => (st, "bad-op")
+      | none => (st, "bad-op")
+  | "cthr" :: op =>
+      match kind? op with
+      | some k => ({ st with cc := { st.cc with threads := st.cc.threads ++ [Bm25Conc.Thread.new k] } }, "ok")
+      | none => (st, "bad-op")
+  | ["crun", sched] =>
+      match natList? sched with
+      | some sc =>
+          let rec go (k : Nat) (sc : List Nat) (c : Bm25Conc.Cfg) : Bm25Conc.Cfg × Option Nat :=
+            match sc with
+            | [] => (c, none)
+            | t :: r =>
+              match Bm25Conc.step t c with
+              | some c' => go (k + 1) r c'
+              | none => (c, some k)
+          match go 0 sc st.cc with
+          | (c, some k) => ({ st with cc := c }, s!"disabled@{k}")
+          | (c, none) =>
+              let out := ";".intercalate (c.threads.map (fun th => showRes th.res))
+              ({ st with cc := { sh := c.sh, threads := [] } }, s!"res={out} quiescent={Bm25Conc.quiescent c}")
+      | none => (st, "bad-op")
+  | ["cstate"] => (st, showConc st.cc.sh)
+  | ["cflushed"] =>
+      ({ st with cc := { st.cc with sh := { st.cc.sh with buckets := st.cc.sh.buckets.map (fun p => (p.1, { p.2 with dirty := false })) } } }, "ok")
+  | ["csync"] => ({ st with ix := st.cc.sh.toIndex }, "ok")
   | ["dreset"] => ({ st with D := Durable.empty }, "ok")
   | ["dobj", b, g, p, d] =>
       match b.toNat?, g.toNat?, payload? p d with
